@@ -92,6 +92,13 @@ func runC18(c *Ctx) {
 			switch {
 			case safeObjectTypes[elem.String()]:
 				kind = "safe-object"
+			case mutexStructY5(elem) != nil && c.pkgs[mutexStructY5(elem).Obj().Pkg().Path()] != nil:
+				// a mutex-carrying struct of the module held by value (`var tables tableSet`, the zero value ready for
+				// use) is the same shared object as one held through a pointer assigned once
+				// (`var tables = &tableSet{…}`): its fields are under the lock discipline (ISO-LOCK,
+				// ISO-PUBLISH, no copies), which decides every access to them
+				guarded[mutexStructY5(elem)] = true
+				kind = "guarded"
 			case typeHasRefData(elem, map[types.Type]bool{}):
 				kind = "refdata"
 			default:
@@ -752,6 +759,15 @@ func (c *Ctx) lockRules(guarded map[*types.Named]bool) {
 					// built by a helper that returns a map it made itself and keeps no reference to
 					if g := x.Call.StaticCallee(); g != nil && c.inModule(g) && c.effects().returnsFresh(g) {
 						fresh = true
+					}
+				}
+				if ld, isLd := stored.(*ssa.UnOp); isLd && ld.Op == token.MUL {
+					// read out of a local variable that function literals share (ext_y7.go)
+					if al, isAl := ld.X.(*ssa.Alloc); isAl && al.Parent() == fn {
+						var l2 []string
+						if fresh, l2 = c.sharedMapCellY7(fn, al, ld, b, i); fresh {
+							late = append(late, l2...)
+						}
 					}
 				}
 				if !fresh {
